@@ -7,7 +7,8 @@ THEOREMS = ["Momtrop.C18.schema_matches", "Momtrop.C18.dec_enc_edge", "Momtrop.C
             "Momtrop.C18.dec_enc_table", "Momtrop.C18.decode_encode", "Momtrop.C18.observation_after_roundtrip"]
 RULE = ("the serde schema is re-extracted from /repo/src on every run and checked by a kernel-checked theorem against the model; real round "
         "trips of samplers built through the public API (catalogue/random graphs, D=1..6 with D*L odd and even, signatures with negative "
-        "entries and |entries|>=2) through serde_json (text), serde_json::Value and ciborium (binary, exact f64), comparing getters, "
+        "entries and |entries|>=2, vacuum graphs without externals, disconnected graphs) through serde_json (text), serde_json::Value, "
+        "ciborium (binary, exact f64) and the harness's own value-tree format with structs as maps and as SEQUENCES, comparing getters, "
         "table, signature and 40 (quick) / 400 (thorough) samples bit for bit. Non-trivial: multi-loop sampler or negative signature entry")
 ASSUMPTIONS = ["serde derive semantics (struct = map of all fields in order) is the model; the real formats are exercised by the round trips"]
 TRUSTED_EXTRA = ["translator /verif/mtv/serde_schema.py (regex extraction of struct fields and serde attributes from lib.rs, preprocessing.rs)"]
@@ -44,14 +45,15 @@ def same_tree(got, exp):
 def run(ctx):
     rng = ctx.rng
     structs, manual = serde_schema.extract()
-    ss = S.generate(ctx, 12 if ctx.quick else 80, 1, max_e=6, max_loops=3, routings_per_graph=1, kinds=("uniform",))
+    ss = S.generate(ctx, 12 if ctx.quick else 80, 1, max_e=6, max_loops=3, routings_per_graph=1, kinds=("uniform",),
+                    special=("vacuum", "disconnected") * (2 if ctx.quick else 8))
     reqs, infos = [], []
     npts = 40 if ctx.quick else 400
     for s in ss:
         c, r = s["case"], s["routing"]
         dim = s["built"]["numVars"]
         pts = [[f2b(x) for x in S.point(rng, dim, k)] for k in (["uniform"] * (npts - 4) + ["corner"] * 4)]
-        for fmt in ("json", "json_value", "cbor"):
+        for fmt in ("json", "json_value", "cbor", "wire_map", "wire_seq"):
             rq = dict(S.graphs.request(c), op="serde", sig=r["sig"], edge_data=s["req"]["edge_data"], points=pts, format=fmt, meta=True)
             reqs.append(rq); infos.append((s, fmt))
     res = run_harness(reqs)
@@ -61,7 +63,7 @@ def run(ctx):
         neg = any(v < 0 for row in r["sig"] for v in row)
         ctx.case([rq["edges"], rq["sig"], rq["D"], fmt], nontrivial=(r["L"] >= 2 or neg),
                  sample={"graph": c["name"], "D": c["D"], "L": r["L"], "format": fmt, "bytes": a.get("bytes"), "sig": r["sig"]} if len(ctx.samples) < 3 else None)
-        ctx.count(f"format.{fmt}"); ctx.count(f"status.{a.get('status')}"); ctx.count("DL_odd" if (c["D"] * r["L"]) % 2 else "DL_even")
+        ctx.count(f"format.{fmt}"); ctx.count(f"status.{a.get('status')}"); ctx.count("family." + c["name"].split(":")[0]); ctx.count("DL_odd" if (c["D"] * r["L"]) % 2 else "DL_even")
         if neg:
             ctx.count("negative_signature_entry")
         small = dict(rq, points=f"<{len(rq['points'])} points>")
